@@ -451,6 +451,36 @@ func schemeGuard(g *wlGen, b *ssa.BasicBlock) string {
 	return ""
 }
 
+// gapGuard classifies a guard as the "there is a gap here" test of the
+// assembly loop 0 <= i < Length: "after" = i < Length-1 (separator follows the
+// atom), "before" = i > 0 (separator precedes the atom). Both select exactly
+// the Length-1 gaps.
+func gapGuard(g *wlGen, gd core.Guard) string {
+	rel, ok := core.AsRel(gd)
+	if !ok || g.main == nil {
+		return ""
+	}
+	if rel.Y == ssa.Value(g.main.Phi) {
+		rel = rel.Flip()
+	}
+	if rel.X != ssa.Value(g.main.Phi) {
+		return ""
+	}
+	if rel.Op == token.LSS {
+		if sub, ok := rel.Y.(*ssa.BinOp); ok && sub.Op == token.SUB && recipeField(sub.X, "Length") {
+			if k, isC := core.ConstInt(sub.Y); isC && k == 1 {
+				return "after"
+			}
+		}
+	}
+	if k, isC := core.ConstInt(rel.Y); isC {
+		if (rel.Op == token.GTR && k == 0) || (rel.Op == token.GEQ && k == 1) || (rel.Op == token.NEQ && k == 0) {
+			return "before"
+		}
+	}
+	return ""
+}
+
 func checkSeparatorPerGap(p *core.Program, r *core.Report, g *wlGen, rule string) {
 	name := core.FuncName(g.fn)
 	if g.sepCall == nil {
@@ -463,22 +493,18 @@ func checkSeparatorPerGap(p *core.Program, r *core.Report, g *wlGen, rule string
 	if !inLoop {
 		return
 	}
-	// guard i < Length-1 exactly (one in-loop guard)
+	// guard: exactly the gap test (i < Length-1, or i > 0 when the separator precedes the atom)
 	ng, okG := 0, false
 	for _, gd := range core.Guards(g.sepCall.Block()) {
 		if !g.main.Loop.Blocks[gd.If.Block()] || gd.If.Block() == g.main.Loop.Header {
 			continue
 		}
 		ng++
-		if rel, ok := core.AsRel(gd); ok && rel.Op == token.LSS && rel.X == ssa.Value(g.main.Phi) {
-			if sub, ok := rel.Y.(*ssa.BinOp); ok && sub.Op == token.SUB && recipeField(sub.X, "Length") {
-				if k, isC := core.ConstInt(sub.Y); isC && k == 1 {
-					okG = true
-				}
-			}
+		if gapGuard(g, gd) != "" {
+			okG = true
 		}
 	}
-	r.Check(okG && ng == 1, rule, name, "the separator call is guarded exactly by i < Length-1", pos, fmt.Sprintf("%d in-loop guards", ng))
+	r.Check(okG && ng == 1, rule, name, "the separator call is guarded exactly by the gap test (i < Length-1, or i > 0)", pos, fmt.Sprintf("%d in-loop guards", ng))
 	// the called value: closure over SeparatorChar or the recipe's SeparatorFunc, fixed before the loop
 	okSF := false
 	if phi, ok := g.sepCall.Call.Value.(*ssa.Phi); ok && !g.main.Loop.Blocks[phi.Block()] {
@@ -727,7 +753,7 @@ func runC05(p *core.Program, r *core.Report) {
 		}
 		r.Check(every, "R5.1a", name, construct, p.InstrPos(a.call),
 			"the atom append is conditional on "+strings.Join(conds, ", ")+": a list containing the empty string yields fewer than Length atoms (and adjacent separators)")
-		r.Check(a.base == ssa.Value(g.tsPhi), "R5.1a", name, "the atom is appended to the running token list", p.InstrPos(a.call), "")
+		r.Check(derivesFromList(a.base, g, seps), "R5.1a", name, "the atom is appended to the running token list", p.InstrPos(a.call), "")
 	}
 	checkTitleIffCap(p, r, g, "R5.1a")
 	// R5.1b
@@ -744,6 +770,7 @@ func runC05(p *core.Program, r *core.Report) {
 		r.Check(okV, "R5.1b", name, "separator token's value is the string returned by this iteration's separator call", pos, core.Describe(s.value))
 		// guards: i < Length-1 and len(sep) > 0, nothing else
 		ng, okGap, okLen := 0, false, false
+		gapForm := ""
 		for _, gd := range core.Guards(s.call.Block()) {
 			if !c.Loop.Blocks[gd.If.Block()] || gd.If.Block() == c.Loop.Header {
 				continue
@@ -753,12 +780,8 @@ func runC05(p *core.Program, r *core.Report) {
 			if !ok {
 				continue
 			}
-			if rel.Op == token.LSS && rel.X == ssa.Value(c.Phi) {
-				if sub, ok := rel.Y.(*ssa.BinOp); ok && sub.Op == token.SUB && recipeField(sub.X, "Length") {
-					if k, isC := core.ConstInt(sub.Y); isC && k == 1 {
-						okGap = true
-					}
-				}
+			if f := gapGuard(g, gd); f != "" {
+				okGap, gapForm = true, f
 			}
 			if x, isLen := core.LenOf(rel.X); isLen && x == s.value {
 				if k, isC := core.ConstInt(rel.Y); isC && ((rel.Op == token.GTR && k == 0) || (rel.Op == token.GEQ && k == 1) || (rel.Op == token.NEQ && k == 0)) {
@@ -766,10 +789,16 @@ func runC05(p *core.Program, r *core.Report) {
 				}
 			}
 		}
-		r.Check(okGap, "R5.1b", name, "separator only between atoms (i < Length-1): never trailing", pos, "")
+		r.Check(okGap, "R5.1b", name, "separator only between atoms (i < Length-1 after the atom, or i > 0 before it): never leading or trailing", pos, "")
 		r.Check(okLen, "R5.1b", name, "no separator token for an empty separator string", pos, "")
 		r.Check(ng == 2, "R5.1b", name, "no other condition on the separator token", pos, fmt.Sprintf("%d in-loop guards", ng))
-		// appended after the atom: its base derives from the atom append (through phis)
+		// ordering: after-form: the separator's base derives from this iteration's atom append;
+		// before-form: the atom's base derives from this separator append
+		if gapForm == "before" {
+			okOrd := len(atoms) == 1 && derivesFrom(atoms[0].base, ssa.Value(s.call), g.tsPhi, 0) && derivesFromList(s.base, g, nil)
+			r.Check(okOrd, "R5.1b", name, "the separator is appended before this iteration's atom, onto the running list", pos, "")
+			continue
+		}
 		after := false
 		var walk func(v ssa.Value, d int)
 		walk = func(v ssa.Value, d int) {
@@ -795,6 +824,51 @@ func runC05(p *core.Program, r *core.Report) {
 	checkCapSchemes(p, r, g)
 	// R5.3
 	checkAccessors(p, r, atomV, sepV)
+}
+
+// derivesFrom: v is target, or a merge phi (not the loop accumulator) one of whose edges derives from target.
+func derivesFrom(v, target ssa.Value, tsPhi *ssa.Phi, d int) bool {
+	if d > 5 {
+		return false
+	}
+	if v == target {
+		return true
+	}
+	if phi, ok := v.(*ssa.Phi); ok && phi != tsPhi {
+		for _, e := range phi.Edges {
+			if derivesFrom(e, target, tsPhi, d+1) {
+				return true
+			}
+		}
+	}
+	return false
+}
+
+// derivesFromList: v is the running token list: the loop accumulator itself, or a merge of it with
+// this iteration's separator appends.
+func derivesFromList(v ssa.Value, g *wlGen, seps []*tokAppend) bool {
+	if v == ssa.Value(g.tsPhi) {
+		return true
+	}
+	phi, ok := v.(*ssa.Phi)
+	if !ok || phi == g.tsPhi {
+		return false
+	}
+	for _, e := range phi.Edges {
+		if e == ssa.Value(g.tsPhi) {
+			continue
+		}
+		isSep := false
+		for _, s := range seps {
+			if e == ssa.Value(s.call) {
+				isSep = true
+			}
+		}
+		if !isSep && !derivesFromList(e, g, seps) {
+			return false
+		}
+	}
+	return true
 }
 
 func isLenPositiveOf(gs []core.Guard, v ssa.Value) bool {
@@ -989,6 +1063,20 @@ func isInOrderConcat(f *ssa.Function) (bool, string) {
 	rets := core.Returns(f)
 	if len(rets) != 1 {
 		return false, "several returns"
+	}
+	var bri *core.RangeInfo
+	if ok, why, isB := isBuilderConcat(f, rets[0].Results[0], func(l *core.Loop) bool {
+		ri, ok := core.AsRange(l)
+		if !ok || ri.Kind != "slice" {
+			return false
+		}
+		if ref, okP := core.LoadPath(ri.X); !okP || !strings.HasPrefix(ref.Path, ".") || strings.Count(ref.Path, ".") != 1 {
+			return false
+		}
+		bri = ri
+		return true
+	}, func(v ssa.Value) bool { return bri != nil && isValueOfElem(v, bri) }); isB {
+		return ok, why
 	}
 	phi, ok := rets[0].Results[0].(*ssa.Phi)
 	if !ok {
